@@ -48,6 +48,8 @@ FLOORS = {
                                                    "c07.specs_with_path_and_reverse": 100},
                  "seen": {"maps.rule_form": 4}},
 }
+# W5: the repository's own test suite runs once under these ambient monitors (thorough tier)
+W5_MONITORS = ['objects']
 CASE_TIMEOUT = {"quick": 60, "thorough": 180}
 SIZES = {"quick": (420, 420), "thorough": (8000, 8000)}
 
